@@ -308,6 +308,11 @@ double Likelihood_Poisson_Binned(const std::vector<double>& N_prediction_binned,
 // 3.1 Sample from specific distribution
 double Sample_Uniform(std::mt19937& PRNG, double x_min, double x_max)
 {
+	if(x_min > x_max)
+	{
+		std::cerr << "Error in libphysica::Sample_Uniform(): Invalid interval [" << x_min << "," << x_max << "]." << std::endl;
+		std::exit(EXIT_FAILURE);
+	}
 	std::uniform_real_distribution<double> dis(x_min, x_max);
 	return dis(PRNG);
 }
@@ -320,6 +325,11 @@ double Sample_Gauss(std::mt19937& PRNG, double mean, double standard_deviation)
 
 unsigned int Sample_Poisson(std::mt19937& PRNG, double expectation_value)	// Algorithm from https://en.wikipedia.org/wiki/Poisson_distribution
 {
+	if(expectation_value < 0.0)
+	{
+		std::cerr << "Error in libphysica::Sample_Poisson(): Expectation value is negative." << std::endl;
+		std::exit(EXIT_FAILURE);
+	}
 	double STEP		   = 500;
 	double lambda_left = expectation_value;
 	int k			   = 0;
